@@ -19,6 +19,22 @@ CLAIMED = {
         note="Trusted: Lean kernel (propext, Classical.choice, Quot.sound); extract.py; the INI-reader model (tied to configparser differentially); text->lines split, final rstrip, "
              "UTF-8 and 'touches nothing else' rest on the tie (audit hook + listing). Known finding K13a (port with surrounding blanks).",
         technique="Lean 4 theorems + regenerated registry obligation (decide +kernel) + differential ties", ref="4/C13"),
+    "C15": dict(
+        text="Lean theorems over the firmware input blocks: handler runs exactly on rising edges of the sampled signal (never held/release/start-up), is_pressed() "
+             "is the pass's sample, host click count agrees when the signal starts released; ultrasonic helper: <= 3 attempts, echo*0.0343/2, last-good/400 fallback, "
+             ">= 60 ms between trigger pulses for EVERY clock behaviour (Nat clock, arbitrary drift). Model tied bit-exactly to the emitted C++ compiled against the mock "
+             "core with scripted inputs; trace monitors (one sample per pass, spacing, attempts, fresh analogRead per pot.read()) run on the real firmware.",
+        note="Trusted: Lean kernel (propext, Classical.choice, Quot.sound); mock core + host g++; millis() wrap-around and float32 rounding of the distance are outside "
+             "the theorems; 'one analogRead per pot.read()' is decided by the trace monitor only. Known finding K15a (button declared in the loop body: start-up click).",
+        technique="Lean 4 theorems on firmware state machines + bit-exact model/compiled-firmware correspondence (S_c) + trace monitors", ref="4/C15"),
+    "C16": dict(
+        text="Lean theorems over the emitted buzzer blocks for all states and arguments: frequency <= 0 never starts a tone; play_tone-with-duration/beep(times>=1)/sweep/"
+             "melody end silent with get_state() false; beep sounds exactly n times with the given gaps; sweep: `steps` monotone tones, end/start frequency, total delay <= "
+             "duration; melody = the score with floor(beats*60000/tempo) delays; getters track the pin. Score table regenerated from the source each run (gen_melodies). "
+             "Model tied bit-exactly to the compiled emitted C++; protocol monitor on the firmware trace.",
+        note="Trusted: Lean kernel (propext, Classical.choice, Quot.sound); mock core + host g++; exact-arithmetic theorems (float32 rounding via the tie only); negative "
+             "durations hit a C cast to unsigned and are outside the model. Known finding K16a (beep(times<=0) leaves an earlier tone sounding).",
+        technique="Lean 4 theorems on the emitted-block model + regenerated score obligation + bit-exact correspondence (S_c)", ref="4/C16"),
     "C19": dict(
         text="Invariants of Led/RGBLed/Servo/DCMotor proved in Lean for every call (any int/float/bool argument) and hence every call history by induction, atomic failure, "
              "fade/ramp end-points and monotonicity, sleep totals — over an arbitrary ordered field (exact arithmetic). The executable model (at IEEE double) is compared bit-exactly "
